@@ -65,15 +65,15 @@ StartDoc ==
             /\ UNCHANGED <<sc, d, lim, isGlobal, status, outs, res, ran, wall, exit>>
 
 \* Cram: one script for the whole document; per-test limits are not supported (execution error)
-CramUnsupported == sc.docs[d].fmt = "cram" /\ \E x \in 1..Len(Cur) : Cur[x].t # None \/ Cur[x].det
+CramUnsupported == Script(sc, d) /\ ((\E x \in 1..Len(Cur) : Cur[x].t # None \/ Cur[x].det) \/ InconsistentSkip(sc, d))
 
 \* stateful_executor.rs: the limit is the *smaller* of the per-test timeout and the time left
 PickLimit ==
     /\ pc = "pick"
     /\ IF CramUnsupported
        THEN exit' = 1 /\ pc' = "done" /\ UNCHANGED <<lim, isGlobal>>
-       ELSE /\ lim' = MinDefined(IF sc.docs[d].fmt = "cram" THEN None ELSE CurTc.t, Left)
-            /\ isGlobal' = (Left # None /\ (CurTc.t = None \/ sc.docs[d].fmt = "cram" \/ Left <= CurTc.t))
+       ELSE /\ lim' = MinDefined(IF Script(sc, d) THEN None ELSE CurTc.t, Left)
+            /\ isGlobal' = (Left # None /\ (CurTc.t = None \/ Script(sc, d) \/ Left <= CurTc.t))
             /\ pc' = "run" /\ UNCHANGED exit
     /\ UNCHANGED <<sc, d, k, clock, status, outs, res, ran, wall>>
 
@@ -107,7 +107,7 @@ OnSkip ==
 OnTimeout ==
     /\ pc = "handle" /\ status = "timeout"
     /\ res' = SetAt(res, d, [x \in 1..Len(Cur) |->
-                  IF sc.docs[d].fmt = "cram" THEN (IF x = 1 THEN "timeout" ELSE "skipped")   \* one script: no attribution
+                  IF Script(sc, d) THEN (IF x = 1 THEN "timeout" ELSE "skipped")   \* one script: no attribution
                   ELSE IF x < k THEN (IF outs[d][x] = "detached" THEN "none" ELSE Validate(Cur[x], outs[d][x]))
                   ELSE IF x = k THEN "timeout" ELSE "skipped"])
     /\ outs' = AppendAt(outs, d, "timeout")
